@@ -538,6 +538,15 @@ fn catalogue<V: Cv>(thorough: bool, seed: u64) -> Vec<Task<V>> {
     out
 }
 
+/// CPU time of the calling thread (the machine may be shared: wall time says little)
+fn thread_cpu() -> f64 {
+    let mut ts = libc::timespec { tv_sec: 0, tv_nsec: 0 };
+    unsafe {
+        libc::clock_gettime(libc::CLOCK_THREAD_CPUTIME_ID, &mut ts);
+    }
+    ts.tv_sec as f64 + ts.tv_nsec as f64 * 1e-9
+}
+
 fn main() {
     let mut ctx = Ctx::from_args("C06");
     // --replay: re-execute exactly the (entry, input) of a violation file
@@ -568,16 +577,30 @@ fn main() {
     rep.assume("msm_by_bounded_scalars: only inputs respecting the stated bounds are generated (the documentation says the bounds are not enforced)");
     rep.assume("ZKIR IntoBytes(32)/FromBytes point compression is not reachable from outside the zkir crate except through a whole ZKIR program: left to C18");
     let thorough = ctx.tier == Tier::Thorough;
+    let xu = |k: &str, d: usize| ctx.extra.get(k).and_then(|v| v.parse().ok()).unwrap_or(d);
     let atk = AtkOpts {
         small: if thorough { ArsBudget { restarts: 64, nodes_per_restart: 4000, max_changed: 48 } } else { ArsBudget { restarts: 12, nodes_per_restart: 1000, max_changed: 24 } },
-        big: if thorough { ArsBudget { restarts: 4, nodes_per_restart: 2000, max_changed: 48 } } else { ArsBudget { restarts: 2, nodes_per_restart: 400, max_changed: 24 } },
+        foreign_small: if thorough {
+            ArsBudget { restarts: xu("fs-restarts", 8), nodes_per_restart: xu("fs-nodes", 300), max_changed: 48 }
+        } else {
+            ArsBudget { restarts: xu("fs-restarts", 4), nodes_per_restart: xu("fs-nodes", 40), max_changed: 24 }
+        },
+        big: if thorough {
+            ArsBudget { restarts: xu("big-restarts", 3), nodes_per_restart: xu("big-nodes", 24), max_changed: 32 }
+        } else {
+            ArsBudget { restarts: xu("big-restarts", 2), nodes_per_restart: xu("big-nodes", 6), max_changed: 16 }
+        },
         real_k_max: 12,
         max_targets: if thorough { 40 } else { 12 },
-        hint_cells: if thorough { 24 } else { 6 },
+        max_targets_foreign: xu("f-targets", if thorough { 16 } else { 8 }),
+        max_targets_big: xu("big-targets", if thorough { 8 } else { 4 }),
+        hint_cells: xu("hint-cells", if thorough { 8 } else { 2 }),
     };
     rep.set(
         "ars_budgets",
-        json!({"k<14": format!("{:?}", atk.small), "k>=14 (lowered: table set-up dominates)": format!("{:?}", atk.big), "real_prover_confirmation_k_max": atk.real_k_max}),
+        json!({"jubjub": format!("{:?}", atk.small), "foreign k<14 (lowered: the chip's lookup reads advice columns, every node rescans it)": format!("{:?}", atk.foreign_small),
+               "k>=14 (lowered further: ~2 s per node)": format!("{:?}", atk.big), "real_prover_confirmation_k_max": atk.real_k_max,
+               "targets_per_input": json!({"jubjub": atk.max_targets, "foreign": atk.max_targets_foreign, "k>=14": atk.max_targets_big})}),
     );
 
     let mut jobs: Vec<Box<dyn Job>> = vec![];
@@ -612,9 +635,9 @@ fn main() {
         .par_iter()
         .map(|(ji, i, _)| {
             let mut part = rep.fork();
-            let t0 = std::time::Instant::now();
+            let t0 = thread_cpu();
             let r = jobs[*ji].run(thorough, seed, &atk, Some(*i), &mut part);
-            (part, r, t0.elapsed().as_secs_f64())
+            (part, r, thread_cpu() - t0)
         })
         .collect();
     let mut per_op: BTreeMap<String, serde_json::Value> = BTreeMap::new();
@@ -640,7 +663,7 @@ fn main() {
                    "attack_targets": merged("attack_targets", a.targets), "attack_nodes": merged("attack_nodes", a.nodes),
                    "candidates_consistent": merged("candidates_consistent", a.cand_consistent), "candidates_bad": merged("candidates_bad", a.cand_bad),
                    "hint_cells": merged("hint_cells", a.hint_cells),
-                   "cpu_seconds": ((secs + prev.as_ref().and_then(|p| p.get("cpu_seconds")).and_then(|x| x.as_f64()).unwrap_or(0.0)) * 10.0).round() / 10.0}),
+                   "thread_cpu_seconds": ((secs + prev.as_ref().and_then(|p| p.get("thread_cpu_seconds")).and_then(|x| x.as_f64()).unwrap_or(0.0)) * 10.0).round() / 10.0}),
         );
     }
     rep.set("per_operation", json!(per_op));
